@@ -15,8 +15,10 @@ import (
 	"os"
 	"os/exec"
 	"path/filepath"
+	"runtime"
 	"strings"
 	"sync"
+	"time"
 
 	"github.com/kevin-hanselman/dud/src/agglog"
 	"github.com/kevin-hanselman/dud/src/artifact"
@@ -124,6 +126,36 @@ func raceRound(o *opts, r *rng, round, width int) int {
 			fmt.Fprintln(os.Stderr, "race: checkout:", err)
 		}
 	}
+	// operations that FAIL: the recorded checksum of the directory names an object that is there but
+	// is no manifest (a file's bytes). Each must return an error - and leave no goroutine behind.
+	if leaked := cacheGoroutines(); leaked > 0 {
+		wrong += leaked
+		fmt.Fprintln(os.Stderr, "race: goroutines of package cache still alive after successful operations:", leaked)
+	}
+	for name, cs := range want {
+		if _, err := os.Stat(filepath.Join(data, name)); err != nil {
+			break
+		}
+		bad := artifact.Artifact{Path: "data", IsDir: true, Checksum: cs}
+		if err := ch.Commit(work, &bad, strat, agglog.NewNullLogger()); err == nil {
+			wrong++
+			fmt.Fprintln(os.Stderr, "race: commit over an undecodable old manifest succeeded")
+		}
+		bad = artifact.Artifact{Path: "data", IsDir: true, Checksum: cs}
+		if _, err := ch.Status(work, bad, false); err == nil {
+			wrong++
+			fmt.Fprintln(os.Stderr, "race: status with an undecodable manifest succeeded")
+		}
+		if err := ch.Checkout(work, bad, strat, nil); err == nil {
+			wrong++
+			fmt.Fprintln(os.Stderr, "race: checkout with an undecodable manifest succeeded")
+		}
+		if leaked := cacheGoroutines(); leaked > 0 {
+			wrong += leaked
+			fmt.Fprintln(os.Stderr, "race: goroutines of package cache still alive after failed operations:", leaked)
+		}
+		break
+	}
 	// a concurrent batch of plain checksum computations sharing the pools
 	var wg sync.WaitGroup
 	var mu sync.Mutex
@@ -145,6 +177,27 @@ func raceRound(o *opts, r *rng, round, width int) int {
 	}
 	wg.Wait()
 	return wrong
+}
+
+// cacheGoroutines: how many goroutines are still inside dud's cache package (after giving them a
+// moment to finish)
+func cacheGoroutines() int {
+	n := 0
+	for try := 0; try < 20; try++ {
+		buf := make([]byte, 1<<22)
+		buf = buf[:runtime.Stack(buf, true)]
+		n = 0
+		for _, g := range strings.Split(string(buf), "\n\n") {
+			if strings.Contains(g, "dud/src/cache.") && !strings.Contains(g, "harness") && !strings.Contains(g, "main.raceRound") {
+				n++
+			}
+		}
+		if n == 0 {
+			return 0
+		}
+		time.Sleep(25 * time.Millisecond)
+	}
+	return n
 }
 
 func runRace(o *opts) {
